@@ -7,6 +7,9 @@ DeliveryConsts: facts of starsim/interventions.py that the C20 theorems depend o
                              the annual -> per-step conversion expression, translated to a small expression tree.
 * BaseScreening/BaseTriage/BaseVaccination.step : the gate `<x> in self.timepoints` and that delivery happens only under it.
 * treat_num.get_candidates : the capacity slice `self.queue[:self.max_capacity (+/- k)]`.
+* BaseVaccination.step / BaseTest.deliver / BaseTreatment.get_accept_inds / BaseTreatment.step : where the eligible agents
+  they work with come from (`self.check_eligibility()` called there = fresh, an attribute kept on the object = stored), and that
+  Intervention.check_eligibility evaluates the rule and reads nothing else kept on the object.
 """
 import ast
 from harness.extract import generator, ExtractError, lean_rat, lit_rat, unparse
@@ -97,6 +100,76 @@ def _gate(src, cls, deliver_calls, lookup_fns):
     return kind, unparse(g.test)
 
 
+def _elig_src(fn, node, depth=0):
+    """ Where an expression used as "the eligible agents" comes from: 'fresh' = (a local name all of whose assignments in the
+        function are) the call `self.check_eligibility()`; 'stored' = some path reads an attribute of the object instead """
+    if isinstance(node, ast.Call) and unparse(node.func) == 'self.check_eligibility' and not node.args and not node.keywords:
+        return 'fresh'
+    if isinstance(node, ast.Attribute) and unparse(node).startswith('self.'):
+        return 'stored'
+    if isinstance(node, ast.Name) and depth < 4:
+        a = [n for n in ast.walk(fn) if isinstance(n, (ast.Assign, ast.AugAssign, ast.AnnAssign, ast.NamedExpr))
+             and any(isinstance(t, ast.Name) and t.id == node.id for t in ast.walk(n.targets[0] if isinstance(n, ast.Assign) else n.target))]
+        if not a or any(not isinstance(n, ast.Assign) or len(n.targets) != 1 or not isinstance(n.targets[0], ast.Name) for n in a):
+            raise ExtractError(f'{fn.name}: cannot resolve the eligibility expression `{node.id}`')
+        kinds = {_elig_src(fn, n.value, depth + 1) for n in a}
+        return 'fresh' if kinds == {'fresh'} else 'stored'
+    raise ExtractError(f'{fn.name}: unsupported source of the eligible agents `{unparse(node)[:80]}`')
+
+
+def _filter_src(src, cls, fname):
+    """ the source of the argument of the single `self.coverage_dist.filter(<eligible>)` call of cls.fname """
+    fn = src.func(REL, fname, cls)
+    calls = [n for n in ast.walk(fn) if isinstance(n, ast.Call) and unparse(n.func) == 'self.coverage_dist.filter']
+    if len(calls) != 1 or len(calls[0].args) != 1 or calls[0].keywords:
+        raise ExtractError(f'{cls}.{fname}: expected exactly one `self.coverage_dist.filter(<eligible>)` call')
+    return _elig_src(fn, calls[0].args[0])
+
+
+def _recheck_src(src):
+    """ BaseTreatment.step: the treated are `<candidates> ∩ <eligible>`; returns the source of <eligible> """
+    fn = src.func(REL, 'step', 'BaseTreatment')
+    adm = [n for n in ast.walk(fn) if isinstance(n, ast.Call) and unparse(n.func) == 'self.product.administer']
+    if len(adm) != 1 or len(adm[0].args) != 1:
+        raise ExtractError('BaseTreatment.step: expected one `self.product.administer(<treated>)` call')
+    t = adm[0].args[0]
+    if isinstance(t, ast.Name):
+        a = _assigns(fn, t.id)
+        if len(a) != 1:
+            raise ExtractError(f'BaseTreatment.step: cannot resolve the treated uids `{t.id}`')
+        t = a[0].value
+    if isinstance(t, ast.Call) and isinstance(t.func, ast.Attribute) and t.func.attr == 'intersect' and len(t.args) == 1 and not t.keywords:
+        parts = [t.func.value, t.args[0]]
+    elif isinstance(t, ast.Call) and unparse(t.func) in ('np.intersect1d', 'numpy.intersect1d') and len(t.args) == 2:
+        parts = list(t.args)
+    else:
+        raise ExtractError(f'BaseTreatment.step: the treated uids are not an intersection of candidates and eligible: {unparse(t)[:80]}')
+    def is_cand(n):
+        if isinstance(n, ast.Name):
+            a = _assigns(fn, n.id)
+            return len(a) == 1 and is_cand(a[0].value)
+        return isinstance(n, ast.Call) and unparse(n.func) == 'self.get_candidates'
+    cands = [x for x in parts if is_cand(x)]
+    if len(cands) != 1:
+        raise ExtractError('BaseTreatment.step: one side of the intersection must be `self.get_candidates()`')
+    other = [x for x in parts if x is not cands[0]][0]
+    return _elig_src(fn, other)
+
+
+def _rule_call(src):
+    """ Intervention.check_eligibility evaluates the rule (`self.eligibility(self.sim)`) and reads nothing else kept on the object """
+    fn = src.func(REL, 'check_eligibility', 'Intervention')
+    calls = [n for n in ast.walk(fn) if isinstance(n, ast.Call) and unparse(n) in ('self.eligibility(self.sim)', 'self.eligibility(sim)')]
+    if len(calls) != 1:
+        raise ExtractError('Intervention.check_eligibility: the call of the eligibility rule was not found')
+    roots = {n.attr for n in ast.walk(fn) if isinstance(n, ast.Attribute) and isinstance(n.value, ast.Name) and n.value.id == 'self'}
+    if not roots <= {'eligibility', 'sim'}:
+        raise ExtractError(f'Intervention.check_eligibility reads object attributes other than the rule and the sim: {sorted(roots)}')
+    if any(isinstance(n, (ast.Assign, ast.AugAssign)) and any(isinstance(t, ast.Attribute) for t in ast.walk(n.targets[0] if isinstance(n, ast.Assign) else n.target))
+           for n in ast.walk(fn)):
+        raise ExtractError('Intervention.check_eligibility writes to an attribute')
+
+
 @generator('DeliveryConsts', [REL])
 def gen(src):
     # ---- adj_factor ----  (found by shape, not by the local variable names)
@@ -181,6 +254,12 @@ def gen(src):
                 'self.max_capacity is None')
     if not any(t in ok_tests for t in tests):
         raise ExtractError(f'get_candidates: unsupported capacity test {tests}')
+    # ---- which evaluation of the eligibility rule each delivering function works with ----
+    _rule_call(src)
+    e_vx = _filter_src(src, 'BaseVaccination', 'step')
+    e_test = _filter_src(src, 'BaseTest', 'deliver')
+    e_acc = _filter_src(src, 'BaseTreatment', 'get_accept_inds')
+    e_re = _recheck_src(src)
     body = f'''namespace StarsimModel.Gen
 /-- `RoutineDelivery.init_pre`: `adj_factor = int(1/dt) - adjFineSub if dt < adjThreshold else adjCoarse` -/
 def adjThreshold : Rat := {lean_rat(thr)}
@@ -205,9 +284,20 @@ def gateTriage : GateKind := .{g_tri}
 def gateVaccination : GateKind := .{g_vx}
 /-- `treat_num.get_candidates`: `self.queue[:self.max_capacity + capSliceOffset]` -/
 def capSliceOffset : Int := {offs[0]}
+/-- where the eligible agents a delivering function works with come from: `self.check_eligibility()` called in that function
+    (`fresh`) or an attribute kept on the object (`stored`); `BaseVaccination.step`, `BaseTest.deliver`,
+    `BaseTreatment.get_accept_inds` (argument of `coverage_dist.filter`), `BaseTreatment.step` (the set the candidates are intersected with) -/
+inductive EligSrcKind
+  | fresh | stored
+  deriving DecidableEq, Repr
+def eligSrcVaccination : EligSrcKind := .{e_vx}
+def eligSrcTest : EligSrcKind := .{e_test}
+def eligSrcTreatAccept : EligSrcKind := .{e_acc}
+def eligSrcTreatRecheck : EligSrcKind := .{e_re}
 end StarsimModel.Gen
 '''
     facts = dict(adj_threshold=str(thr), adj_fine_sub=int(fine), adj_coarse=int(coarse), vec_per_timepoint=vec_per_tp, yearvec_expr=ytxt, prob_conversion=unparse(conv),
                  gate_screening=s_scr, gate_triage=s_tri, gate_vaccination=s_vx,
-                 gate_screening_kind=g_scr, gate_triage_kind=g_tri, gate_vaccination_kind=g_vx, cap_slice_offset=offs[0])
+                 gate_screening_kind=g_scr, gate_triage_kind=g_tri, gate_vaccination_kind=g_vx, cap_slice_offset=offs[0],
+                 elig_src_vaccination=e_vx, elig_src_test=e_test, elig_src_treat_accept=e_acc, elig_src_treat_recheck=e_re)
     return body, facts
